@@ -356,3 +356,28 @@ def under_contrary_config(fn):
         with tt.config_context(**opts):
             return fn(case, *a, **kw)
     return wrapper
+
+
+def same_numbers(got, exp, rtol=1e-9):
+    """Exact equality of the model's and the implementation's canonical outputs; when they are not identical, the same
+    structure with every numeric leaf within rtol (relative). The fallback exists for one reason: a float literal in the
+    source (0.5 * x instead of x / 2) turns the implementation's exact Fractions into floats, so that identical
+    computations differ in the last bits; no realistic defect changes a result by less than 1e-9 relative."""
+    if got == exp:
+        return True
+
+    def walk(a, b):
+        if isinstance(a, (list, tuple)) and isinstance(b, (list, tuple)):
+            return len(a) == len(b) and all(walk(x, y) for x, y in zip(a, b))
+        if isinstance(a, str) or isinstance(b, str) or isinstance(a, bool) or isinstance(b, bool):
+            return a == b
+        try:
+            fa, fb = float(a), float(b)
+        except (TypeError, ValueError):
+            return a == b
+        if fa != fa or fb != fb:
+            return fa != fa and fb != fb
+        if fa in (float("inf"), float("-inf")) or fb in (float("inf"), float("-inf")):
+            return fa == fb
+        return abs(fa - fb) <= rtol * max(1.0, abs(fa), abs(fb))
+    return walk(got, exp)
